@@ -31,6 +31,13 @@ ASSUMPTIONS = ['views are checked in serial mode (parallel equivalence is C13)',
 
 
 def gen(r, tier, i):
+    if r.random() < 0.06:
+        # cells moved by a source path of two keys: they arrive below the target store, under a glob
+        # store whose viewer declares a variable the cells' own processes do not
+        n = r.choice([2, 3, 4])
+        return {'class': 'deepmove', 'cells': n, 'moves': sorted(r.sample(range(1, 6), r.choice([1, 2, min(3, n)]))),
+                'viewer_ts': r.choice([0.5, 1.0, 2.0]), 'world_glob': r.random() < 0.3, 'viewer_as': r.choice(['process', 'step']),
+                'preset': r.random() < 0.5, 'colony': r.choice(['colonyA', 'cells'])}
     if r.random() < 0.45:
         case = topo.gen_case(r, maxports=4)
         case['class'] = 'static'
@@ -219,10 +226,107 @@ def run_dynamic(spec, V):
     return stats, ops >= 2 and n >= 10, kinds + ['dynamic', 'dir_' + spec['dir_as']]
 
 
+def run_deepmove(spec, V):
+    from vivarium.core.engine import Engine
+    from vivarium.core.process import Process, Step
+    from vmon.sensors import plain_values
+    col = spec['colony']
+    holder = {}
+    stats = {'struct_ops': 0, 'view_checks': 0}
+
+    class Grow(Process):
+        def ports_schema(self):
+            return {'internal': {'mass': {'_default': 1.0, '_updater': 'accumulate'}}}
+
+        def next_update(self, timestep, states):
+            return {'internal': {'mass': 0.125 * timestep}}
+
+    def look(states):
+        e = holder.get('e')
+        if e is None:
+            return
+        tree = plain_values(e.state.get_value())
+        kids = tree.get('world', {}).get(col, {})
+        exp = {'cells': {k: {'x': v.get('x', 'MISSING') if isinstance(v, dict) else 'MISSING'} for k, v in kids.items()}}
+        stats['view_checks'] += 1
+        V.check('view_is_projection', _eq(exp, states),
+                lambda: ('glob viewer of world/%s: states differs from the declared shape over the current children '
+                         '(cells arrive by _move with a two-key source path)' % col, _diff(exp, states)))
+
+    schema = {'cells': {'*': {'x': {'_default': 0.5, '_updater': 'set'}}}}
+
+    class ViewP(Process):
+        def ports_schema(self):
+            return copy.deepcopy(schema)
+
+        def calculate_timestep(self, states):
+            return self.parameters['ts']
+
+        def next_update(self, timestep, states):
+            look(states)
+            return {}
+
+    class ViewS(Step):
+        def ports_schema(self):
+            return copy.deepcopy(schema)
+
+        def next_update(self, timestep, states):
+            look(states)
+            return {}
+
+    class WorldView(Process):
+        def ports_schema(self):
+            return {'world': {'*': {}}}
+
+        def next_update(self, timestep, states):
+            return {}
+
+    class Mover(Process):
+        calls = 0
+
+        def ports_schema(self):
+            return {'nursery': {}, 'world': {}}
+
+        def next_update(self, timestep, states):
+            self.calls += 1
+            mv = [{'source': (col, 'n%d' % i), 'target': 'world'}
+                  for i, t in enumerate(self.parameters['moves']) if t == self.calls]
+            stats['struct_ops'] += len(mv)
+            return {'nursery': {'_move': mv}} if mv else {}
+
+    n = spec['cells']
+    procs = {'mover': Mover({'moves': spec['moves']}),
+             'world': {col: {'w0': {'grow': Grow()}}} if spec['preset'] else {},
+             'nursery': {col: {'n%d' % i: {'grow': Grow()} for i in range(len(spec['moves']))}}}
+    tops = {'mover': {'nursery': ('nursery',), 'world': ('world',)},
+            'world': {col: {'w0': {'grow': {'internal': ('internal',)}}}} if spec['preset'] else {},
+            'nursery': {col: {'n%d' % i: {'grow': {'internal': ('internal',)}} for i in range(len(spec['moves']))}}}
+    steps = {}
+    if spec['viewer_as'] == 'process':
+        procs['viewer'] = ViewP({'ts': spec['viewer_ts']})
+    else:
+        steps['viewer'] = ViewS()
+    tops['viewer'] = {'cells': ('world', col)}
+    if spec['world_glob']:
+        procs['wv'] = WorldView()
+        tops['wv'] = {'world': ('world',)}
+    try:
+        e = Engine(processes=procs, steps=steps or None, topology=tops, display_info=False, emitter='null')
+        holder['e'] = e
+        e.update(7.0)
+        V.check('no_exception', True)
+    except Exception as ex:
+        import traceback
+        V.check('no_exception', False, ('engine raised', type(ex).__name__, str(ex)[:200], traceback.format_exc()[-300:]))
+    return stats, stats['struct_ops'] >= 1 and stats['view_checks'] >= 4, ['deepmove', 'op_move', 'viewer_' + spec['viewer_as']]
+
+
 def run(spec):
     V = Viol()
     if spec['class'] == 'static':
         stats, nt, classes = run_static(spec, V)
+    elif spec['class'] == 'deepmove':
+        stats, nt, classes = run_deepmove(spec, V)
     else:
         stats, nt, classes = run_dynamic(spec, V)
     return {'viol': list(V), 'evals': V.evals, 'stats': stats, 'nontrivial': bool(nt), 'classes': classes,
